@@ -43,12 +43,14 @@ def val_text(v):
     return v
 
 
-def render_c(items, seed=0, fortran=False, uid="x", plain=False, drop=()):
+def render_c(items, seed=0, fortran=False, uid="x", plain=False, drop=(), xstr=False):
     """
     Returns (text, lines_of_item) where lines_of_item[i] (0-based item index) is the list of
     physical line numbers (1-based) that the item contributes as counted lines.
     Decorations (blank lines, comment-only lines, trailing comments, continuation lines,
     indentation) vary with `seed` and must not change what is counted.
+    With `xstr` (the command line then defines XSTR(x) as #x) a macro whose value is a quoted header name may be
+    written `XSTR( name )`: a function-like macro with stringification in the operand of a computed include.
     Code items whose index is in `drop` are rendered as nothing countable (no line, a blank line or
     a comment): directives then follow each other directly, and a file may begin / end with one.
     """
@@ -110,6 +112,8 @@ def render_c(items, seed=0, fortran=False, uid="x", plain=False, drop=()):
             txt = "endif"
         elif k == "define":
             v = val_text(it["v"])
+            if xstr and it["v"].startswith("q:") and rnd.random() < 0.5:
+                v = rnd.choice(["XSTR({})", "XSTR( {} )", "XSTR(  {})"]).format(it["v"][2:])
             txt = f"define {it['m']} {v}" if v != "" else f"define {it['m']}"
         elif k == "undef":
             txt = f"undef {it['m']}"
